@@ -75,7 +75,7 @@ def _worker(task):
             if not caps: progs.append(None); continue
             ex, x, r, outs = gencheck.run_tester(caps[-1].code, caps[-1].scope, uni, hs)
             progs.append((ex, outs, caps[-1].code))
-        x = z3.Const('x', M.Obj); r = z3.Int('r'); axioms = uni.axioms()
+        x = z3.Const('x', M.Obj); r = z3.Int('r'); axioms = uni.axioms(); prover = discharge.Prover(axioms)
         def paths(p):
             if p is None: return [((), z3.BoolVal(True))]     # ignorable hint: constant-true checker
             ex, outs, _ = p
@@ -88,7 +88,7 @@ def _worker(task):
         for p in progs:
             if p is None: continue
             for ob in p[0].obls:
-                rr = discharge.prove(axioms, list(ob.pc), ob.goal)
+                rr = prover.prove(list(ob.pc), ob.goal)
                 rec['obligations'].append(dict(name=f'{ob.kind}#{ob.name.rsplit(".", 1)[-1]}', status=rr.status, time=rr.time, backend=rr.backend, where=ob.where))
         # the paths of one program partition the input space (their definedness side conditions are separate obligations above),
         # so acceptance is the disjunction of (path condition and truth of the returned value)
